@@ -9,6 +9,7 @@ import (
 	"sort"
 	"strings"
 	"sync"
+	"sync/atomic"
 	"time"
 
 	ipldprime "github.com/ipld/go-ipld-prime"
@@ -50,15 +51,73 @@ type rcptObs struct {
 	Issuer  string
 	Rcpt    string
 	Decoded bool
+	Direct  string // class of the receipt returned by ServerView.Run for the same invocation
 }
 
 type BatchObs struct {
-	mu        sync.Mutex
-	Calls     []callRec
-	Rcpts     []rcptObs
-	ExecErr   string
-	NReceipts int // number of entries in the report (distinct keys)
-	Panic     string
+	mu          sync.Mutex
+	Calls       []callRec
+	Rcpts       []rcptObs
+	ExecErr     string
+	NReceipts   int // number of entries in the report (distinct keys)
+	DirectCalls int // handler calls made while the invocations were run again through ServerView.Run
+	DirectRan   bool
+	Panic       string
+}
+
+type unencodable struct{}
+
+func (unencodable) ToIPLD() (datamodel.Node, error) {
+	return nil, fmt.Errorf("value cannot be encoded")
+}
+
+type batchRun struct {
+	obs *BatchObs
+	r   *rand.Rand
+	rmu *sync.Mutex
+}
+
+// the batch whose server is being exercised (handlers of shared providers record into it)
+var currentBatch atomic.Pointer[batchRun]
+
+var providerMu sync.Mutex
+var providers = map[string]server.ServiceMethod[ipld.Builder]{}
+
+func sharedProvider(can, kind string) server.ServiceMethod[ipld.Builder] {
+	providerMu.Lock()
+	defer providerMu.Unlock()
+	key := can + "|" + kind
+	if p, ok := providers[key]; ok {
+		return p
+	}
+	desc := (&World{Can: can}).descriptor(&Obs{})
+	h := func(cap ucan.Capability[Cav], inv invocation.Invocation, ctx server.InvocationContext) (ipld.Builder, fx.Effects, error) {
+		cur := currentBatch.Load()
+		if cur != nil && cur.r != nil {
+			cur.rmu.Lock()
+			d := time.Duration(cur.r.Intn(300)) * time.Microsecond
+			cur.rmu.Unlock()
+			time.Sleep(d)
+		}
+		if cur != nil {
+			cur.obs.mu.Lock()
+			cur.obs.Calls = append(cur.obs.Calls, callRec{cap.Can(), cap.With(), nbNode(cap.Nb()), can, inv.Link().String()})
+			cur.obs.mu.Unlock()
+		}
+		switch kind {
+		case "fail":
+			return nil, nil, fmt.Errorf("handler failed")
+		case "badout":
+			// the handler succeeds but its value cannot be turned into IPLD
+			return unencodable{}, nil, nil
+		case "okfx":
+			return ok.Unit{}, fx.NewEffects(fx.WithFork(fx.FromLink(fakeLink(777)))), nil
+		}
+		return ok.Unit{}, nil, nil
+	}
+	p := server.Provide[Cav, ipld.Builder](desc, h)
+	providers[key] = p
+	return p
 }
 
 // newServer builds a real server for the batch with recording handlers.
@@ -85,28 +144,11 @@ func (b *Batch) newServer(obs *BatchObs) (server.ServerView, error) {
 	sort.Strings(abilities)
 	for _, can := range abilities {
 		kind := b.Handlers[can]
-		can := can
-		desc := w.descriptorFor(can, dummy)
-		h := func(cap ucan.Capability[Cav], inv invocation.Invocation, ctx server.InvocationContext) (ipld.Builder, fx.Effects, error) {
-			if r != nil {
-				rmu.Lock()
-				d := time.Duration(r.Intn(300)) * time.Microsecond
-				rmu.Unlock()
-				time.Sleep(d)
-			}
-			obs.mu.Lock()
-			obs.Calls = append(obs.Calls, callRec{cap.Can(), cap.With(), nbNode(cap.Nb()), can, inv.Link().String()})
-			obs.mu.Unlock()
-			switch kind {
-			case "fail":
-				return nil, nil, fmt.Errorf("handler failed")
-			case "okfx":
-				return ok.Unit{}, fx.NewEffects(fx.WithFork(fx.FromLink(fakeLink(777)))), nil
-			}
-			return ok.Unit{}, nil, nil
-		}
-		opts = append(opts, server.WithServiceMethod(can, server.Provide[Cav, ipld.Builder](desc, h)))
+		// the SAME Provide(...) value is registered on every server this process creates
+		// (a provider must not remember anything about the server it first ran on)
+		opts = append(opts, server.WithServiceMethod(can, sharedProvider(can, kind)))
 	}
+	currentBatch.Store(&batchRun{obs: obs, r: r, rmu: &rmu})
 	return server.NewServer(w.Ctx.Authority.Signer.(principal.Signer), opts...)
 }
 
@@ -159,6 +201,35 @@ func (b *Batch) Run(channel func(srv server.ServerView) transport.Channel) *Batc
 			ch = channel(srv)
 		}
 		b.runOn(ch, b.Invs, obs)
+		// the single-invocation entry point must give the same receipt (and run nothing more than the model says)
+		ncalls := len(obs.Calls)
+		seen := map[string]bool{}
+		for _, n := range b.Invs {
+			inv := b.W.built[n].Dlg
+			if seen[inv.Link().String()] {
+				continue
+			}
+			seen[inv.Link().String()] = true
+			var cls string
+			if p := recovered(func() {
+				rc, err := srv.Run(inv)
+				if err != nil {
+					cls = "run-error"
+					return
+				}
+				cls, _, _, _ = decodeReceipt(rc.Root().Bytes())
+			}); p != nil {
+				cls = "panic: " + fmt.Sprint(p)
+			}
+			for i := range obs.Rcpts {
+				if obs.Rcpts[i].Inv == inv.Link().String() {
+					obs.Rcpts[i].Direct = cls
+				}
+			}
+		}
+		obs.DirectCalls = len(obs.Calls) - ncalls
+		obs.DirectRan = true
+		obs.Calls = obs.Calls[:ncalls]
 	}); p != nil {
 		obs.Panic = fmt.Sprint(p)
 	}
@@ -312,7 +383,7 @@ func (b *Batch) CoqFor(names []string, obs *BatchObs) string {
 	sort.Strings(cans)
 	for _, c := range cans {
 		k := 0
-		if b.Handlers[c] == "fail" {
+		if b.Handlers[c] == "fail" || b.Handlers[c] == "badout" {
 			k = 1
 		}
 		hs = append(hs, fmt.Sprintf("(%s, %d)", hxs(c), k))
@@ -363,8 +434,10 @@ func randomBatch(r *rand.Rand, id int, seed int64, maxInv int, dup bool) *Batch 
 	cw := &World{ID: id, Kind: "batch", Cast: cast, Can: "store/add", Ctx: baseCtx(service)}
 	b := &Batch{ID: id, W: cw, Handlers: map[string]string{}}
 	for _, a := range abilities {
-		switch r.Intn(5) {
+		switch r.Intn(6) {
 		case 0: // no handler for this ability
+		case 5:
+			b.Handlers[a] = "badout"
 		case 1:
 			b.Handlers[a] = "fail"
 		case 2:
